@@ -227,7 +227,16 @@ fn c11_suite<S: ShortGroupSignatureScheme>(em: &mut Emitter, base: &mut Rng, sui
                 continue;
             }
             let kind = leaf_kind(leaf);
-            for (how, nv) in mutate_leaf(rng, leaf, &all_leaf_values) {
+            let mut muts = mutate_leaf(rng, leaf, &all_leaf_values);
+            // an id carried inside a proof replaced by the id of every other statement of the schema
+            if let Value::String(s0) = leaf {
+                if path.last().map(|x| x == "id").unwrap_or(false) && scn.schema.statements.contains_key(s0) {
+                    for other in scn.schema.statements.keys().filter(|o| *o != s0) {
+                        muts.push(("id-of-sibling-statement", json!(other)));
+                    }
+                }
+            }
+            for (how, nv) in muts {
                 if &nv == leaf {
                     continue;
                 }
@@ -406,6 +415,13 @@ fn c04_suite<S: ShortGroupSignatureScheme>(em: &mut Emitter, base: &mut Rng, sui
             mix = Mix { n_creds: 2, n_claims: 4, disclosed: vec![vec![], vec![]], equality: true, commitment: Some(1), verenc: Some((1, false)), membership: true, age: 40, ..Default::default() };
         }
         let mut scn = Scn::<S>::build(rng, &mix);
+        // k == 2, 3: the credential schema has its identifier claim at position 1 / last (not first)
+        if k == 2 || k == 3 {
+            match Scn::<S>::with_revocation_at(rng, if k == 2 { 1 } else { 3 }) {
+                Some(s2) => scn = s2,
+                None => continue,
+            }
+        }
         if k % 2 == 0 && scn.nonce.is_empty() {
             scn.nonce = rng.bytes(16);
         }
